@@ -2,7 +2,9 @@
    Lock-step data-level model (Model/Sys.v), abstract data values.  Statements only. *)
 From Coq Require Import List Arith Bool Lia.
 Import ListNotations.
-From KV Require Import Model.Sys Proofs.SysP.
+From KV Require Import Model.Sys Proofs.SysP Proofs.SysKaisaP.
+From Coq Require Import Reals FunctionalExtensionality.
+From KV Require Import Model.Mat Model.Factor Proofs.MatP Proofs.FactorP.
 
 (* For every data interpretation in which allreduce-averaging the per-rank
    running-average updates equals updating with the rank mean (proved for real
@@ -40,6 +42,50 @@ Proof.
   cbv zeta in H1, H2. rewrite (H1 r Hr), (H2 r' Hr'). reflexivity.
 Qed.
 
+(* every KAISA grid (W = k * p, any p, k > 0: COMM-OPT k = W, HYBRID 1 < k < W, MEM-OPT k = 1) with the layer's inverse
+   workers in one column (C06: inv_workers_in_one_column, src_is_worker_in_my_row, broadcast_flags) gives a
+   well-formed assignment; hence the transparency theorem applies to every strategy the constructor can produce *)
+Theorem kaisa_is_wf : forall p k c wa wg, 0 < p -> 0 < k -> c < p ->
+  wa < k * p -> wg < k * p -> wa mod p = c -> wg mod p = c ->
+  wf_asg (k * p) (kaisa_asg p k c wa wg).
+Proof. exact kaisa_asg_wf_l. Qed.
+
+Theorem kaisa_transparent :
+  forall (D : Type) (ema : D -> D -> D) (avg : list D -> D) (inv : D -> D) (pre : D -> D -> D -> D),
+  (forall P (Ms : list D), Ms <> [] -> avg (map (ema P) Ms) = ema P (avg Ms)) ->
+  forall p k c wa wg (st : nat -> rstate D) mA mG g FA FG,
+  0 < p -> 0 < k -> c < p -> wa < k * p -> wg < k * p -> wa mod p = c -> wg mod p = c ->
+  (forall r, r < k * p -> fA D (st r) = FA) -> (forall r, r < k * p -> fG D (st r) = FG) ->
+  forall r, r < k * p ->
+    final_grad D pre (k * p) (kaisa_asg p k c wa wg)
+               (iter_state D ema avg inv (k * p) (kaisa_asg p k c wa wg) st mA mG) g r
+    = Some (single_grad D ema avg inv pre (k * p) FA FG mA mG g).
+Proof.
+  intros D ema avg inv pre Hrm p k c wa wg st mA mG g FA FG Hp Hk Hc Ha Hg Ea Eg HA HG r Hr.
+  assert (HW : 0 < k * p) by nia.
+  destruct (iteration_transparent_l D ema avg inv pre Hrm (k * p) _ st mA mG g FA FG HW
+              (kaisa_asg_wf_l p k c wa wg Hp Hk Hc Ha Hg Ea Eg) HA HG) as [_ H].
+  exact (H r Hr).
+Qed.
+
+(* the data interpretation K-FAC actually uses - real matrices, running average ema_alpha, allreduce = rank average -
+   satisfies the premise (C04 rank_mean, made a Leibniz equality by functional extensionality): the transparency
+   theorem holds for real-matrix factors on every KAISA grid, for any inverse / preconditioning maps *)
+Theorem kaisa_transparent_real_matrices :
+  forall (alpha : R) (inv : @mat R -> @mat R) (pre : @mat R -> @mat R -> @mat R -> @mat R)
+         p k c wa wg (st : nat -> rstate (@mat R)) mA mG g FA FG,
+  0 < p -> 0 < k -> c < p -> wa < k * p -> wg < k * p -> wa mod p = c -> wg mod p = c ->
+  (forall r, r < k * p -> fA _ (st r) = FA) -> (forall r, r < k * p -> fG _ (st r) = FG) ->
+  forall r, r < k * p ->
+    final_grad _ pre (k * p) (kaisa_asg p k c wa wg)
+               (iter_state _ (emaR alpha) (rank_avg ops_R) inv (k * p) (kaisa_asg p k c wa wg) st mA mG) g r
+    = Some (single_grad _ (emaR alpha) (rank_avg ops_R) inv pre (k * p) FA FG mA mG g).
+Proof.
+  intros alpha inv pre. apply kaisa_transparent.
+  intros P Ms Hne. apply functional_extensionality. intros i. apply functional_extensionality. intros j.
+  now apply rank_mean_l.
+Qed.
+
 (* non-vacuity: a HYBRID-like assignment on 4 ranks (columns {0,2},{1,3}; layer in column 1) is well-formed *)
 Example hybrid_asg_wf :
   wf_asg 4 {| a_wa := 1; a_wg := 3; a_gw := fun r => Nat.eqb (r mod 2) 1;
@@ -53,3 +99,6 @@ Qed.
 
 Print Assumptions multi_equals_single.
 Print Assumptions ranks_agree_placement_irrelevant.
+Print Assumptions kaisa_is_wf.
+Print Assumptions kaisa_transparent.
+Print Assumptions kaisa_transparent_real_matrices.
